@@ -21,6 +21,7 @@ MATCH = (0, 7, 8)
 def walk(ref_start0, cigar):
     """Independent CIGAR walk.  Returns (exons 1-based closed, read blocks 0-based closed, op index ranges)."""
     exons, rblocks, cblocks = [], [], []
+    donly = []          # reference intervals of N-delimited segments made of deletions only (no aligned base)
     ref = ref_start0 + 1
     q = 0
     seg = None   # [ref_first, ref_last, q_first, q_last, op_first, op_last, has_match]
@@ -45,6 +46,8 @@ def walk(ref_start0, cigar):
             if seg is not None:
                 if seg[6]:
                     exons.append((seg[0], seg[1])); rblocks.append((seg[2], seg[3])); cblocks.append((seg[4], seg[5]))
+                elif seg[1] >= seg[0]:
+                    donly.append((seg[0], seg[1]))
                 seg = None
             ref += l
         elif op == 4:
@@ -57,21 +60,32 @@ def walk(ref_start0, cigar):
             pass
     if seg is not None and seg[6]:
         exons.append((seg[0], seg[1])); rblocks.append((seg[2], seg[3])); cblocks.append((seg[4], seg[5]))
+    elif seg is not None and seg[1] >= seg[0]:
+        donly.append((seg[0], seg[1]))
+    walk.last_donly = donly
     return exons, rblocks, cblocks
 
 
 def in_domain(cigar):
-    """SAM-valid and every N-delimited segment has an aligned base (see DESIGN C16-G)."""
+    """SAM-valid, at least one aligned base. N-delimited segments WITHOUT an aligned base are allowed: they carry no
+    read evidence and are expected to yield no exon (an insertion-only segment covers no reference position at all; for a
+    deletion-only segment both readings - reported or dropped - are accepted), but they must not disturb the other exons."""
     core = [c for c in cigar if c[0] not in (4, 5)]
     if not core:
         return False
-    segs = [[]]
-    for op, l in core:
-        if op == 3:
-            segs.append([])
-        else:
-            segs[-1].append(op)
-    return all(any(o in MATCH for o in s) for s in segs)
+    return any(o in MATCH for o, l in core)
+
+
+def blocks_equal_modulo_donly(result, ref_start, cigar):
+    """compare (exons, read blocks) with the walk; exons equal to a deletion-only segment may be present or absent"""
+    ex, rb, cb = walk(ref_start, cigar)
+    donly = set(walk.last_donly)
+    if list(result[0]) == ex and list(result[1]) == rb:
+        return True
+    if not donly:
+        return False
+    keep = [i for i, e in enumerate(result[0]) if tuple(e) not in donly]
+    return [tuple(result[0][i]) for i in keep] == ex and [tuple(result[1][i]) for i in keep] == rb
 
 
 def pattern_class(cigar):
@@ -126,15 +140,16 @@ def _worker(job):
 
     def blocks_match_walk(ref_start, cigar_tuples, result):
         st["evals"] += 1
+        if not blocks_equal_modulo_donly(result, ref_start, cigar_tuples):
+            return False
         ex, rb, cb = walk(ref_start, cigar_tuples)
-        if result[0] != ex or result[1] != rb:
-            return False
-        if len(result[2]) != len(cb):
-            return False
-        # cigar blocks: must start at the first op of the segment and cover its last op
-        for (a, b), (oa, ob) in zip(result[2], cb):
-            if a != oa or b < ob:
+        if len(result[0]) == len(ex):
+            if len(result[2]) != len(cb):
                 return False
+            # cigar blocks: must start at the first op of the segment and cover its last op
+            for (a, b), (oa, ob) in zip(result[2], cb):
+                if a != oa or b < ob:
+                    return False
         return True
     if not getattr(common.get_read_blocks, "_verif_wrapped", False):
         wrapped = icontract.ensure(blocks_match_walk, error=PostBroken)(common.get_read_blocks)
@@ -170,7 +185,7 @@ def _worker(job):
                 info = ai_mod.AlignmentInfo(a)
                 res["ai"] += 1
                 ex, rb, cb = walk(ref0, cigar)
-                if info.read_exons != ex or info.read_blocks != rb:
+                if not blocks_equal_modulo_donly((info.read_exons, info.read_blocks), ref0, cigar):
                     res["viol"].append(("alignmentinfo-mismatch", cigar_str(cigar), ref0, str(ex), str(info.read_exons)))
                 # second, pysam-based oracle: aligned reference positions must be inside the exons and at exon ends
                 refpos = a.get_reference_positions()
@@ -422,7 +437,7 @@ def run(chk, scratch):
     thorough = chk.tier == "thorough"
     max_ops = 7 if thorough else 5
     chk.rule = ("exhaustive over CIGAR cores of <=%d operations over {M,=,X,I,D,N} (no two equal adjacent ops, lengths in {1,3}, "
-                "every N-delimited segment has an aligned base) x clip variants {none,S,HS,H}x{none,S,SH,H} (all 16 up to 4 ops, 4 above), "
+                "N-delimited segments without aligned bases included) x clip variants {none,S,HS,H}x{none,S,SH,H} (all 16 up to 4 ops, 4 above), "
                 "plus random long CIGARs, plus tail-trimming cases on A/T-run terminal exons (real finder and injected positions); "
                 "non-trivial = distinct operator-pattern classes (indel next to N, leading/trailing indel, S, H, several N) / trimming classes (exons removed on A side, T side)") % max_ops
     cores = list(enum_cores(max_ops))
@@ -475,7 +490,7 @@ def run(chk, scratch):
                       "trim_classes": trim_classes, "reads_with_trimmed_exons": trimmed,
                       "exhaustive": True, "max_core_ops": max_ops, "enumerated_cores": len(cores)})
     chk.assumptions = ["oracle = independent CIGAR walk in vlib/checks/c16.py", "pysam builds the records",
-                       "domain excludes N-delimited segments without an aligned base (dropped by design, has_match)"]
+                       "N-delimited segments without an aligned base yield no exon (deletion-only segments may be reported or dropped); all other exons must be exact"]
     chk.inconclusive_if(total_evals == 0, "contract on get_read_blocks never evaluated")
     chk.inconclusive_if(trimmed == 0, "no read had terminal exons trimmed")
     chk.min_nontrivial = 8
